@@ -7,6 +7,7 @@ import (
 	"net"
 	"os"
 	"path/filepath"
+	"runtime"
 	"sort"
 	"strings"
 	"sync"
@@ -107,6 +108,8 @@ type World struct {
 	nParks      int
 	onParked    func(site string)
 	dbArm       func(kind string)
+	softAct     func() // see yieldHook, site cfhandler.beforeWait
+	softNth     int
 	plainDB     bool // hand the client the database itself, not hookDB
 	// parkedReturn: runFor may end (deadline or predicate) while a client
 	// goroutine is parked.
@@ -148,6 +151,36 @@ func (w *World) yieldHook(site string) {
 		// (and with it a parked block handler) from ever moving. It
 		// becomes a one-millisecond wait here.
 		time.Sleep(time.Millisecond)
+		return
+	}
+	if site == "cfhandler.beforeWait" {
+		// A soft site: the filter-header goroutine is about to wait for the
+		// new-headers signal and holds the mutex of that condition. It is
+		// never held here; an armed action (the scenario makes the chain
+		// grow and hands the announcement over at once) runs on this
+		// goroutine, which then yields the processor until the block
+		// handler has dealt with the message or cannot get on.
+		w.ymu.Lock()
+		w.yieldSeen[site]++
+		act := w.softAct
+		if act != nil && w.yieldSeen[site] == w.softNth {
+			w.softAct = nil
+		} else {
+			act = nil
+		}
+		w.ymu.Unlock()
+		if act != nil && !w.freeRun {
+			before := w.yieldCount("headers.beforeTipUpdate")
+			act()
+			for i := 0; i < 20000 && w.yieldCount("headers.beforeTipUpdate") == before; i++ {
+				runtime.Gosched()
+			}
+			// the block handler now finishes its message or waits for
+			// the mutex this goroutine holds
+			for i := 0; i < 2000; i++ {
+				runtime.Gosched()
+			}
+		}
 		return
 	}
 	w.ymu.Lock()
